@@ -200,6 +200,7 @@ def run_batch(mod, seed, tier, runs, wall, jobs):
     chunks = [chunk_indices(k, runs, nchunks) for k in range(nchunks)]
     _G.update(mod=mod, seed=seed, tier=tier, deadline=time.monotonic() + wall)
     results = [None] * nchunks
+    skipped_unstarted = 0
     if jobs == 1 and os.environ.get("VERIF_INPROCESS") == "1":
         for k, c in enumerate(chunks):
             results[k] = _work(c)
@@ -208,6 +209,13 @@ def run_batch(mod, seed, tier, runs, wall, jobs):
         live = {}
         hard_deadline = time.monotonic() + wall + HANG_TIMEOUT + 60
         while pending or live:
+            if pending and time.monotonic() > _G["deadline"]:
+                # the wall budget is used up: the chunks not yet started count as skipped
+                # (forking tens of thousands of children that return at once would itself
+                # take minutes)
+                skipped_unstarted += sum(len(chunks[k]) for k in pending)
+                pending = []
+                continue
             while pending and len(live) < jobs:
                 k = pending.pop(0)
                 parent, child = ctx.Pipe(duplex=False)
@@ -243,9 +251,10 @@ def run_batch(mod, seed, tier, runs, wall, jobs):
     merged = {"runs": 0, "executions": 0, "steps": 0, "faults": {}, "probes": {}, "extra": {},
               "states": set(), "inter": set(), "nontrivial": set(), "digests": [],
               "violations": [], "known": {}, "samples": [], "skipped": 0, "capped": False}
+    merged["skipped"] += skipped_unstarted
     for r in results:
         if r is None:
-            continue        # not started: an earlier chunk had already found a violation
+            continue        # not started: wall budget used up, or a violation already found
         for k in ("runs", "executions", "steps", "skipped"):
             merged[k] += r[k]
         for t in ("faults", "probes", "extra", "known"):
